@@ -13,3 +13,9 @@ type Q struct {
 	Qa int
 	Qs []string
 }
+
+// EI has the same short name as enctypes.EI and different members (embedded in enctypes.EQ).
+type EI struct {
+	J1 string
+	J2 bool
+}
